@@ -1206,7 +1206,6 @@ match eval_fn(disjunction, resolver) {
                                 lemma_count_push(kid_statuses(st_new(base, pre)), Status::FAIL, Status::FAIL);
                             }
 
-                            if multiple_ors_present { break; }
                         }
                     },
 
